@@ -188,7 +188,6 @@ func VerifC13Body() {
 	vAssert(vBreaking(diffs), "request body accepted by the old schema and rejected by the new one, but no Breaking change reported")
 }
 
-
 // C13, response side: the edits the statement lists as breaking for clients
 func VerifC13ResponseEdits() {
 	t := vChoice("template", vParam("templates"))
